@@ -66,9 +66,25 @@ def tag_value_verdict(dt, v):
         if not isinstance(val, (list, dict)):
             return (UNSPEC, "json scalar")
         return (VALID, None)
+    if dt == "f":
+        try:
+            x = float(v)
+            if x != x or x in (float("inf"), float("-inf")):
+                return (UNSPEC, "float outside the range of a double")
+        except ValueError:
+            pass
+        return (VALID, None)
     if dt == "B":
         parts = v.split(",")
         st = parts[0]
+        if st == "f":
+            for e in parts[1:]:
+                try:
+                    x = float(e)
+                    if x != x or x in (float("inf"), float("-inf")):
+                        return (UNSPEC, "float outside the range of a double")
+                except ValueError:
+                    pass
         if st != "f":
             lo, hi = B_RANGE[st]
             for e in parts[1:]:
